@@ -265,6 +265,9 @@ def fam_iter_forms(c, N, sz):
         for (sb, eb) in bound_forms(a, b):
             out.append("range %s %s n,l,b,c,n" % (sb, eb))
             out.append("range_mut %s %s n,l,b,n" % (sb, eb))
+            for k in sorted({0, 1, max(b - a - 1, 0), b - a}):
+                out.append("range %s %s t%d,l,n" % (sb, eb, k))
+                out.append("range_mut %s %s b,t%d,l" % (sb, eb, k))
     for (sb, eb) in extreme_ranges(sz):
         out.append("range %s %s n" % (sb, eb))
         out.append("range_mut %s %s n" % (sb, eb))
@@ -285,6 +288,9 @@ def fam_more_iters(c, N, sz):
     """Iter::default / IterMut::default, (&buf).into_iter()"""
     out = ["iter_default n,b,l,c,n", "iter_default -", "iter_mut_default n,b,l,n", "iter_mut_default sn=%s,sb=%s,l" % (c.e(), c.e())]
     out += ["ref_into_iter " + s for s in (",".join("n" * (sz + 1)), ",".join("b" * (sz + 1)), "n,l,b,c,n", "-")]
+    # Iterator::nth (also what skip / step_by go through): t<k> = nth(k)
+    for k in sorted({0, 1, max(sz - 1, 0), sz, sz + 1}):
+        out += ["iter t%d,l,n,b" % k, "iter_mut t%d,l,b,n" % k, "ref_into_iter n,t%d,l" % k, "iter b,t%d,t0,l" % k]
     return out
 
 
@@ -346,7 +352,8 @@ def wide_ops(c, N, sz, r, kind):
     """single operations with sparse, boundary-biased arguments for a large capacity"""
     out = []
     I = sparse(N, sz, r)
-    lens = sorted({0, 1, 2, max(N - sz - 1, 0), N - sz, N - sz + 1, N - 1, N, N + 1, min(2 * N + 1, 600)})
+    lens = sorted({0, 1, 2, max(N - sz - 1, 0), N - sz, N - sz + 1, N - 1, N, N + 1, min(2 * N + 1, 600)} |
+                  {t + d for t in STEERED if t <= (1 << 17) and N <= 100 for d in (0, 1)})
     if kind in ("mut", "all"):
         out += fam_push(c, N, sz) + fam_pop(c, N, sz) + ["clear", "make_contiguous -"]
         for i in I:
@@ -356,7 +363,7 @@ def wide_ops(c, N, sz, r, kind):
         out += ["swap %d %d" % (i, j) for i in J for j in J]
         for m in lens:
             out += ["extend " + c.es(m), "extend_from_slice " + c.es(m)]
-        if N <= 128:
+        if N <= 128 or N in STEERED:
             out += ["fill " + c.e(), "fill_with", "fill_spare " + c.e(), "fill_spare_with"]
     if kind in ("drain", "mut", "all"):
         for (a, b) in sparse_ranges(sz, r):
@@ -365,22 +372,26 @@ def wide_ops(c, N, sz, r, kind):
                 out.append("drain i%d e%d %s drop" % (a, b, scr))
     if kind in ("view", "all"):
         out += ["front", "back", "as_slices", "to_vec", "debug", "hash", "len", "is_full", "clone_keep",
-                "iter n,n,n,b,b,l,c", "iter_mut n,b,n,l", "into_iter n,b,n,l", "as_mut_slices -"]
+                "iter n,n,n,b,b,l,c", "iter_mut n,b,n,l", "into_iter n,b,n,l", "as_mut_slices -",
+                "iter t%d,l,n" % (sz // 2), "iter t%d,l" % max(sz - 1, 0), "iter n,t%d,b,l" % (sz // 3), "iter_mut t%d,n,l" % (sz // 2),
+                "iter t%d,n" % sz]
         for i in I:
             out += ["get %d" % i, "nth_back %d" % i, "index %d" % i, "get_mut %d %s" % (i, c.e()),
                     "nth_back_mut %d %s" % (i, c.e())]
         for (a, b) in sparse_ranges(sz, r, 2):
             out += ["range i%d e%d n,b,l,n,b" % (a, b), "range_mut i%d e%d n,sb=%s,l,b" % (a, b, c.e()),
-                    "iter_debug i%d e%d n" % (a, b)]
+                    "iter_debug i%d e%d n" % (a, b), "range i%d e%d t%d,l,n" % (a, b, (b - a) // 2)]
     return out
 
 
 def wide_io(c, N, sz, r, fams=("std",)):
     out = []
-    lens = sorted({0, 1, 2, max(N - sz - 1, 0), N - sz, N - sz + 1, N - 1, N, N + 1, min(2 * N + 1, 700)})
+    lens = sorted({0, 1, 2, max(N - sz - 1, 0), N - sz, N - sz + 1, N - 1, N, N + 1, min(2 * N + 1, 700)} |
+                  {t + d for t in STEERED if t <= (1 << 17) and N <= 100 for d in (0, 1)})
+    big = N in STEERED
     for fam in fams:
         out += ["write %s %s" % (fam, c.es(m)) for m in lens]
-        out += ["read %s %s" % (fam, c.es(m)) for m in sorted({0, 1, sz - 1 if sz else 0, sz, sz + 1, min(N + 2, 700)})]
+        out += ["read %s %s" % (fam, c.es(m)) for m in sorted({0, 1, sz - 1 if sz else 0, sz, sz + 1, N + 2 if big else min(N + 2, 700)})]
         out += ["fill_buf " + fam, "flush " + fam]
         out += ["consume %s %d" % (fam, k) for k in sorted({0, 1, sz // 2, max(sz - 1, 0), sz, sz + 1, N + 2, MAX})]
     out += ["extend_ref " + c.es(m) for m in (1, N - sz + 1)]
